@@ -119,7 +119,7 @@ class VRef(V):
         return f"VRef({self.z})"
 
 
-ELEM_SORT = {"int": I, "ref": I, "bytes": S, "str": S, "bool": B}
+ELEM_SORT = {"int": I, "ref": I, "bytes": S, "str": S, "bool": B, "json": I}
 
 
 class VList(V):
@@ -185,12 +185,28 @@ class VObj(V):
         return f"VObj<{self.cls}>"
 
 
+class VJson(V):
+    """A JSON object of the shape node_to_dict produces, as an immutable record: an identifier whose fields are uninterpreted functions of it
+    (J_type, J_value, J_obfuscation : str; J_start, J_end : int; J_children : array of identifiers with its length)."""
+
+    kind = "json"
+
+    def __init__(self, z):
+        self.z = z
+
+    def __repr__(self):
+        return f"VJson({self.z})"
+
+
+JSON_FIELDS = {"type": "str", "value": "str", "obfuscation": "str", "start": "int", "end": "int", "children": "list"}
+
+
 def elem_val(ek, z):
-    return {"int": VInt, "ref": VRef, "bytes": VBytes, "str": VStr, "bool": VBool}[ek](z)
+    return {"int": VInt, "ref": VRef, "bytes": VBytes, "str": VStr, "bool": VBool, "json": VJson}[ek](z)
 
 
 def sort_of_kind(k):
-    return {"int": I, "ref": I, "bytes": S, "str": S, "bool": B}[k]
+    return {"int": I, "ref": I, "bytes": S, "str": S, "bool": B, "json": I}[k]
 
 
 def zmin(a, b):
